@@ -47,7 +47,7 @@ type ProjectRunner struct {
 	doneProcesses     map[string]*Process
 	logger            pclog.PcLogger
 	loggerMtx         sync.Mutex
-	waitGroup         sync.WaitGroup
+	waitGroup         procTracker
 	exitCode          int
 	exitCodeMtx       sync.Mutex
 	projectState      *types.ProjectState
